@@ -14,7 +14,7 @@ ID = 'C10'
 LEVEL = 'exploration'
 RULE = ('(A) generated call histories on one long-lived instance per configuration (LALR basic/contextual, Earley basic/dynamic; with a pure '
         'lexer callback; with an Indenter post-lexer; propagate_positions; embedded pure transformer): parse(ok), parse(bad), lex consumed '
-        'fully or for j tokens then dropped, scan consumed partially, parse_interactive fed j tokens then dropped or driven into an error, '
+        'fully (also with dont_ignore) or for j tokens then dropped, scan consumed partially, parse_interactive fed j tokens then dropped or driven into an error, '
         'on_error parse, construction of other instances, Reconstructor use; after every completed call its outcome (tree with positions, '
         'or exception class and position) must equal that of the same call on a fresh instance. (B) owned thread schedules: two threads '
         'call parse/lex/scan on one freshly constructed instance under a sys.settrace scheduler that runs one thread at a time and switches '
@@ -82,6 +82,8 @@ def do_call(p, op, text, j, cfg):
             return ('ok', norm(p.parse(text)))
         if op == 'lex':
             return ('ok', [norm(t) for t in p.lex(text)])
+        if op == 'lex-dont-ignore':
+            return ('ok', [norm(t) for t in p.lex(text, dont_ignore=True)])
         if op == 'lex-partial':
             it = p.lex(text); out = []
             for _ in range(j):
@@ -117,6 +119,7 @@ def do_call(p, op, text, j, cfg):
 
 def ops_for(cfg):
     ops = ['parse', 'lex', 'lex-partial']
+    if 'indenter' not in cfg: ops += ['lex-dont-ignore']
     if cfg.startswith('lalr'):
         ops += ['interactive-partial', 'on_error'] if 'indenter' not in cfg else []
         if 'indenter' not in cfg and 'transformer' not in cfg: ops += ['scan-partial']
